@@ -49,6 +49,21 @@ def runProg (sg : Signals) : List Wait → List Bool → List Wait
   | ws, [] => ws
   | w :: ws, r :: rs => if fires w sg r then runProg sg ws rs else runProg sg (w :: ws) rs
 
+/-- A slot (limiter / per-endpoint queue / NSTART) with its FIFO of requests: the head holds the slot and runs the waits it
+    has left; the others are parked in the slot wait, which listens to *their own* request context only — the connection's
+    closing reaches them through the chain: the holder's waits fire, it returns and releases, the next one acquires.
+    One scheduler step (`r` = the adversary's choice whether an awaited result is there). -/
+def qstep (sg : Signals) (q : List (List Wait)) (r : Bool) : List (List Wait) :=
+  match q with
+  | [] => []
+  | [] :: rest => rest                       -- the holder has returned: its slot goes to the next in line
+  | (w :: ws) :: rest => if fires w sg r then ws :: rest else (w :: ws) :: rest
+
+def qrun (sg : Signals) (q : List (List Wait)) (rs : List Bool) : List (List Wait) := rs.foldl (qstep sg) q
+
+/-- steps the queue needs at most: every wait once, plus one hand-over per request -/
+def qcost (q : List (List Wait)) : Nat := (q.map (fun p => p.length + 1)).sum
+
 /-! ### Part 2: close protocol -/
 
 structure Sess where
